@@ -290,6 +290,8 @@ def run_check(spec, tier='quick', seed=0, jobs=None, keep=False, verbose=True):
             log('[%s] gossa: %d program groups built (%.1fs)' % (pid, len(groups), time.time() - t_start))
         jpath = jpaths.get(None) or list(jpaths.values())[0]
         base_opts = dict(getattr(spec, 'OPTIONS', {}))
+        if getattr(spec, 'TAG_FILTER', None):
+            base_opts['tag_filter'] = list(spec.TAG_FILTER)
         tasks = spec.tasks(tier)
         for t in tasks:
             if t.pkg is None:
